@@ -555,6 +555,12 @@ void fillPositionsExtentsAndUnits(const DataArray &array,
         if (i >= units.size()) {
             units.push_back(getDimensionUnit(dim));
         }
+        if (i >= starts.size() && i >= ends.size()) {
+            // neither start nor end given: the caller takes the dimension in full, no positions needed
+            starts.push_back(0.0);
+            ends.push_back(0.0);
+            continue;
+        }
         if (dt == DimensionType::Sample) {
             SampledDimension sd = dim.asSampledDimension();
             if (i >= starts.size()) {
@@ -602,15 +608,22 @@ DataView dataSlice(const DataArray &array, const std::vector<double> &start, con
     }
 
     NDSize count(my_start.size(), 1), offset(my_start.size(), 0);
+    NDSize shape = array.dataExtent();
     for (size_t i = 0; i < my_start.size(); i++) {
+        if (i >= start.size() && i >= end.size()) {
+            // dimension not specified by the caller: all elements along it
+            offset[i] = 0;
+            count[i] = shape[i];
+            continue;
+        }
         Dimension dim = array.getDimension(i+1);
         if (my_start[i] > my_end[i]) {
             throw std::invalid_argument("Start position must not be larger than end position.");
         }
-        std::vector<optional<std::pair<ndsize_t, ndsize_t>>> indices = positionToIndex({start[i]}, {end[i]}, {my_units[i]}, match, dim);
+        std::vector<optional<std::pair<ndsize_t, ndsize_t>>> indices = positionToIndex({my_start[i]}, {my_end[i]}, {my_units[i]}, match, dim);
         if (!indices[0]) {
             optional<ndsize_t> ofst = positionToIndex(my_start[i], my_units[i], PositionMatch::GreaterOrEqual, dim);
-            if (my_end[i] - my_start[i] > std::numeric_limits<double>::epsilon() || !ofst) {
+            if (my_end[i] != my_start[i] || !ofst) {
                 throw nix::OutOfBounds("util::offsetAndCount:An invalid range was encountered!");
             }
             offset[i] = *ofst;
